@@ -323,7 +323,24 @@ func constText(a *Abs) string {
 		}
 		return "[" + strings.Join(parts, ",") + "]"
 	case "rx":
-		return "/" + bstr(a.P) + "/"
+		// between slashes: a slash that is not already escaped gets a backslash (pairs of backslashes are literal backslashes)
+		var b strings.Builder
+		b.WriteByte('/')
+		src := bstr(a.P)
+		for i := 0; i < len(src); i++ {
+			switch {
+			case src[i] == '\\' && i+1 < len(src):
+				b.WriteByte(src[i])
+				i++
+				b.WriteByte(src[i])
+			case src[i] == '/':
+				b.WriteString("\\/")
+			default:
+				b.WriteByte(src[i])
+			}
+		}
+		b.WriteByte('/')
+		return b.String()
 	}
 	panic("constText: " + a.T)
 }
